@@ -30,7 +30,12 @@ BetweenAtoms == { A("size", "between", IntL(9), IntL(11), "int/between"), A("siz
                   A("size", "between", IntL(12), IntL(9), "int/between"), A("size", "between", SizeL(1024, "1k"), SizeL(2048, "2k"), "int/between"),
                   A("hardlinks", "between", IntL(1), IntL(2), "int/between"), A("hardlinks", "between", IntL(2), IntL(3), "int/between"),
                   A("line_count", "between", IntL(1), IntL(3), "int/between"), A("uid", "between", IntL(1), IntL(1000), "int/between"),
-                  A("length(name)", "between", IntL(4), IntL(5), "int/between") }
+                  A("length(name)", "between", IntL(4), IntL(5), "int/between"),
+                  \* (the postfix negation: entries on either bound are inside the interval and therefore not returned)
+                  A("size", "notbetween", IntL(9), IntL(11), "int/notbetween"), A("size", "notbetween", IntL(10), IntL(10), "int/notbetween"),
+                  A("size", "notbetween", IntL(10), IntL(1023), "int/notbetween"), A("size", "notbetween", IntL(11), IntL(1024), "int/notbetween"),
+                  A("size", "notbetween", SizeL(1024, "1k"), SizeL(2048, "2k"), "int/notbetween"),
+                  A("hardlinks", "notbetween", IntL(1), IntL(2), "int/notbetween"), A("length(name)", "notbetween", IntL(4), IntL(5), "int/notbetween") }
 
 (* W2x: W2 plus a name with two 2-byte characters (6 characters, 8 bytes) and sizes on and between 10^6 and 2^20 (sparse files) *)
 Big(i, nm, sz, szn) == N(i, 0, "file", nm, <<>>, 420, 0, 0, T0 + 90000 + i, 0, -3) @@ [bigsize |-> sz, bign |-> szn]     \* (bign: the same size as a number, for the Mech check)
